@@ -1,0 +1,14 @@
+//go:build verif
+
+package etcdv3
+
+import (
+	"github.com/panjf2000/ants/v2"
+	"github.com/projecteru2/core/store/etcdv3/meta"
+	"github.com/projecteru2/core/types"
+)
+
+// NewWithKV builds a Mercury on a caller-supplied KV and pool (verification harness only).
+func NewWithKV(config types.Config, kv meta.KV, pool *ants.PoolWithFunc) *Mercury {
+	return &Mercury{KV: kv, config: config, pool: pool}
+}
